@@ -67,6 +67,8 @@ def main():
     src.append("    out.push(format!(\"{{\\\"kind\\\":\\\"none\\\",\\\"name\\\":\\\"check_fn\\\",\\\"got\\\":\\\"{}\\\"}}\", v(VerifyLayout::check::<base::TBox<'static>>(None))));\n")
     for a in data["ands"]:
         src.append("    out.push(format!(\"{{\\\"kind\\\":\\\"and\\\",\\\"a\\\":\\\"%s\\\",\\\"b\\\":\\\"%s\\\",\\\"got\\\":\\\"{}\\\"}}\", v(mk(\"%s\").and(mk(\"%s\")))));\n" % (a["a"], a["b"], a["a"], a["b"]))
+    for pr in data.get("preds", []):
+        src.append("    out.push(format!(\"{{\\\"kind\\\":\\\"pred\\\",\\\"v\\\":\\\"%s\\\",\\\"strict\\\":{},\\\"relaxed\\\":{}}}\", mk(\"%s\").is_valid_strict(), mk(\"%s\").is_valid_relaxed()));\n" % (pr["v"], pr["v"], pr["v"]))
     src.append("    println!(\"[{}]\", out.join(\",\"));\n}\n")
     open(os.path.join(out, "src", "main.rs"), "w").write("".join(src))
     open(os.path.join(out, "Cargo.toml"), "w").write('[package]\nname = "layoutchk"\nversion = "0.0.0"\nedition = "2018"\n\n[workspace]\n\n[dependencies]\ncglue = { path = "/repo/cglue", features = ["layout_checks"] }\nabi_stable = "0.10"\n')
